@@ -9,9 +9,11 @@ import (
 	"path/filepath"
 	"sort"
 	"strings"
+	"sync"
 	"time"
 
 	"github.com/klev-dev/klevdb"
+	"github.com/klev-dev/klevdb/pkg/vhook"
 
 	"verifharness/ref"
 )
@@ -493,7 +495,7 @@ func (h *Hist) judgeC12(op *Op, pre *ref.Model, preLay Layout, preFiles map[stri
 		return
 	}
 	// multi variants over live offsets remove all of them
-	if op.Variant != "" && res.Err == nil {
+	if op.Variant != "" && res.Err == nil && !res.Stopped {
 		allLive := true
 		for o := range req {
 			if !pre.IsLive(o) {
@@ -767,7 +769,7 @@ func (h *Hist) judgeC15(op *Op, pre *ref.Model, preFiles map[string][]byte, res 
 			return
 		}
 	}
-	if op.Variant == "multi" || op.Variant == "multioffsets" {
+	if (op.Variant == "multi" || op.Variant == "multioffsets") && !res.Stopped {
 		if len(res.DelOffs) != len(found) {
 			h.fail(failf("trim-"+op.Sub+":incomplete", "TrimBy%s%s removed %d of the %d selected messages", op.Sub, op.Variant, len(res.DelOffs), len(found)))
 			return
@@ -841,7 +843,7 @@ func (h *Hist) judgeC16(op *Op, pre *ref.Model, res *OpResult) {
 		if !check(res.DelOffs, "Compact"+op.Sub+op.Variant) {
 			return
 		}
-		if (op.Variant == "multi" || op.Variant == "multioffsets") && op.Sub == "updates" && h.everNonDec && ref.TimesNonDecreasing(live) {
+		if (op.Variant == "multi" || op.Variant == "multioffsets") && !res.Stopped && op.Sub == "updates" && h.everNonDec && ref.TimesNonDecreasing(live) {
 			// at most one message per key remains among those not newer than the cut-off
 			seen := map[string]int64{}
 			for _, x := range live {
@@ -1021,7 +1023,7 @@ func (h *Hist) observe(op *Op, pre *ref.Model, res *OpResult) {
 	// post-op clauses that need the state after the call
 	switch h.prop {
 	case "C15":
-		if op.Kind == "trim" && (op.Variant == "multi" || op.Variant == "multioffsets") && res.Err == nil && res.FoundErr == nil {
+		if op.Kind == "trim" && (op.Variant == "multi" || op.Variant == "multioffsets") && res.Err == nil && !res.Stopped && res.FoundErr == nil {
 			h.postTrimBound(op, pre)
 		}
 	case "C16":
@@ -1307,7 +1309,79 @@ func (h *Hist) timeClass(t int64, lay Layout) string {
 // ---------------------------------------------------------------------------------------
 // reopen (Close, closed-directory checks, index removal, package-level calls, Open)
 
+// crashSnap: the image of a directory taken by the hook handler inside a Delete (what a process
+// killed there leaves behind, temp files of the rewrite included).
+type crashSnap struct {
+	src, dst string
+	done     bool
+	err      error
+}
+
+var crashSnaps sync.Map // goroutine id -> *crashSnap
+var crashHookOnce sync.Once
+
+func installCrashHook() {
+	crashHookOnce.Do(func() {
+		vhook.Set(func(point string) {
+			if point != "delete.afterRewrite" {
+				return
+			}
+			v, ok := crashSnaps.Load(goid())
+			if !ok {
+				return
+			}
+			cs := v.(*crashSnap)
+			if cs.done {
+				return
+			}
+			cs.done = true
+			cs.err = copyDir(cs.src, cs.dst)
+		})
+	})
+}
+
+// crashInsideDelete runs a real Delete and replaces the directory by the image taken after its
+// rewrite and before its swap: the delete is not applied there, its temp files are present.
+func (h *Hist) crashInsideDelete(op *Op) bool {
+	installCrashHook()
+	snap := h.tmpDir("crash")
+	cs := &crashSnap{src: h.dir, dst: snap}
+	g := goid()
+	crashSnaps.Store(g, cs)
+	_, _, derr := kDelete(h.log, offsetSet(op.CrashDel))
+	crashSnaps.Delete(g)
+	kClose(h.log)
+	h.log = nil
+	if !cs.done || cs.err != nil {
+		os.RemoveAll(snap)
+		if derr != nil && !cs.done {
+			// the delete failed before its rewrite finished: nothing to image; the history cannot tell
+			// what was applied
+			h.abort("crash-delete:" + errClass(derr))
+			return false
+		}
+		h.abort("crash-delete:no-image")
+		return false
+	}
+	if err := os.RemoveAll(h.dir); err != nil {
+		h.abort("crash-delete:swap")
+		return false
+	}
+	if err := os.Rename(snap, h.dir); err != nil {
+		h.abort("crash-delete:swap")
+		return false
+	}
+	h.cov.Add("reopen_on_crash_image_inside_delete", 1)
+	h.cov.Distinct("crash_image_temp_files", fmt.Sprintf("temp=%d", layoutOf(h.dir).Temp))
+	return true
+}
+
 func (h *Hist) doReopen(op *Op, final bool) {
+	if len(op.CrashDel) > 0 && h.log != nil && !final {
+		if !h.crashInsideDelete(op) {
+			return
+		}
+	}
 	if h.log != nil {
 		err := kClose(h.log)
 		h.log = nil
